@@ -1,7 +1,303 @@
-//! C42 — not built yet.
-use lv_common::Ctx;
+//! C42 — Task join handles resolve exactly when the task ends.
+//!
+//! Generated task sets on a multi-threaded tokio runtime: plain and cancellable tasks with generated
+//! lifetimes (yield counts, short sleeps), generated panics, cancellation at generated points and
+//! runtime shutdown with tasks alive. Each task's future owns a sentinel whose `Drop` sets a flag
+//! (the future is dropped exactly when the task finished, panicked or was cancelled).
 
-pub fn run(_ctx: &mut Ctx) {
-    eprintln!("C42: check not built yet");
-    std::process::exit(2);
+use std::sync::Arc;
+use std::sync::atomic::{AtomicBool, AtomicU64, Ordering};
+use std::time::Duration;
+
+use lumina_utils::executor::{JoinHandle, spawn, spawn_cancellable};
+use lv_common::prelude::*;
+use tokio_util::sync::CancellationToken;
+
+#[derive(Clone, Debug, Serialize, Deserialize)]
+pub struct TaskSpec {
+    pub cancellable: bool,
+    /// body: `steps` iterations of (progress += 1; optional panic; yield or sleep)
+    pub steps: u16,
+    /// every `sleep_every`-th step sleeps 1 ms instead of yielding (0 = never)
+    pub sleep_every: u8,
+    pub panic_at: Option<u16>,
+    /// harness cancels the token after this many harness-side yields (cancellable only)
+    pub cancel_after: Option<u8>,
+    /// token already cancelled before spawn
+    pub pre_cancelled: bool,
+    /// number of concurrent joiners
+    pub joiners: u8,
+    /// never ends on its own (endless loop) — needs cancel or shutdown
+    pub endless: bool,
+}
+
+#[derive(Clone, Debug, Serialize, Deserialize)]
+pub struct Case {
+    pub tasks: Vec<TaskSpec>,
+    /// drop the runtime while tasks may still be alive, then join from another runtime
+    pub shutdown_early: bool,
+    pub workers: u8,
+}
+
+struct Sentinel(Arc<AtomicBool>);
+impl Drop for Sentinel {
+    fn drop(&mut self) {
+        self.0.store(true, Ordering::SeqCst);
+    }
+}
+
+struct Running {
+    spec: TaskSpec,
+    handle: Arc<JoinHandle>,
+    ended: Arc<AtomicBool>,
+    progress: Arc<AtomicU64>,
+    token: Option<CancellationToken>,
+}
+
+const GRACE: Duration = Duration::from_secs(30);
+
+fn body(spec: TaskSpec, sentinel: Sentinel, progress: Arc<AtomicU64>) -> impl Future<Output = ()> + Send + 'static {
+    async move {
+        let _s = sentinel;
+        let mut i: u16 = 0;
+        loop {
+            if !spec.endless && i >= spec.steps {
+                break;
+            }
+            progress.fetch_add(1, Ordering::SeqCst);
+            if spec.panic_at == Some(i) {
+                panic!("lv-c42 generated task panic");
+            }
+            if spec.sleep_every != 0 && i % spec.sleep_every as u16 == spec.sleep_every as u16 - 1 {
+                tokio::time::sleep(Duration::from_millis(1)).await;
+            } else {
+                tokio::task::yield_now().await;
+            }
+            i = i.wrapping_add(1);
+        }
+    }
+}
+
+async fn join_and_check(r: &Running, idx: usize, obs_fail: &std::sync::Mutex<Option<Failure>>) {
+    let set = |f: Failure| {
+        let mut g = obs_fail.lock().unwrap();
+        if g.is_none() {
+            *g = Some(f);
+        }
+    };
+    match tokio::time::timeout(GRACE, r.handle.join()).await {
+        Ok(()) => {
+            // safety: resolved => the task's future is gone
+            if !r.ended.load(Ordering::SeqCst) {
+                set(Failure::new(
+                    "C42:join-resolved-before-task-ended",
+                    format!("task {idx} ({:?}): join() returned while the task's future was still alive (progress {})", r.spec, r.progress.load(Ordering::SeqCst)),
+                ));
+                return;
+            }
+            // no further progress after join
+            let p0 = r.progress.load(Ordering::SeqCst);
+            for _ in 0..3 {
+                tokio::task::yield_now().await;
+            }
+            tokio::time::sleep(Duration::from_millis(1)).await;
+            let p1 = r.progress.load(Ordering::SeqCst);
+            if p0 != p1 {
+                set(Failure::new("C42:progress-after-join", format!("task {idx} ({:?}) made progress {p0}->{p1} after join() returned", r.spec)));
+                return;
+            }
+            // second join returns immediately
+            let again = futures_now_or_never(r.handle.join());
+            if !again {
+                set(Failure::new("C42:second-join-not-immediate", format!("task {idx}: a second join() was not immediately ready")));
+            }
+        }
+        Err(_) => {
+            // liveness: only a violation when the harness knows the task has ended
+            if r.ended.load(Ordering::SeqCst) {
+                // re-check once more with another grace period before reporting
+                if tokio::time::timeout(GRACE, r.handle.join()).await.is_err() {
+                    set(Failure::new(
+                        "C42:join-never-resolves",
+                        format!("task {idx} ({:?}) ended (its future was dropped) but join() did not resolve within {:?} twice", r.spec, GRACE),
+                    ));
+                }
+            } else {
+                set(Failure::new("inconclusive:task-still-running", format!("task {idx} ({:?}) still running after {:?}", r.spec, GRACE)));
+            }
+        }
+    }
+}
+
+fn futures_now_or_never<F: Future<Output = ()>>(f: F) -> bool {
+    use std::pin::pin;
+    use std::task::{Context, Poll, Waker};
+    let mut f = pin!(f);
+    let mut cx = Context::from_waker(Waker::noop());
+    matches!(f.as_mut().poll(&mut cx), Poll::Ready(()))
+}
+
+fn run_case(case: &Case, obs: &mut Obs) -> Result<(), Failure> {
+    let rt = tokio::runtime::Builder::new_multi_thread().worker_threads(case.workers.clamp(1, 4) as usize).enable_all().build().unwrap();
+    let fail: Arc<std::sync::Mutex<Option<Failure>>> = Arc::new(std::sync::Mutex::new(None));
+    let mut running: Vec<Running> = Vec::new();
+    // spawn
+    {
+        let _g = rt.enter();
+        for spec in &case.tasks {
+            let ended = Arc::new(AtomicBool::new(false));
+            let progress = Arc::new(AtomicU64::new(0));
+            let fut = body(spec.clone(), Sentinel(ended.clone()), progress.clone());
+            let (handle, token) = if spec.cancellable {
+                let t = CancellationToken::new();
+                if spec.pre_cancelled {
+                    t.cancel();
+                }
+                (spawn_cancellable(t.clone(), fut), Some(t))
+            } else {
+                (spawn(fut), None)
+            };
+            running.push(Running { spec: spec.clone(), handle: Arc::new(handle), ended, progress, token });
+        }
+    }
+    for r in &running {
+        obs.label(if r.spec.cancellable { "cancellable-task" } else { "plain-task" });
+        if r.spec.panic_at.map(|p| r.spec.endless || p < r.spec.steps).unwrap_or(false) {
+            obs.label("panicking-task");
+        }
+        if r.spec.pre_cancelled && r.spec.cancellable {
+            obs.label("pre-cancelled");
+        }
+    }
+    let will_end_alone = |s: &TaskSpec| !s.endless || s.panic_at.is_some() || (s.cancellable && (s.pre_cancelled || s.cancel_after.is_some()));
+    if case.shutdown_early {
+        obs.label("runtime-shutdown-with-live-tasks");
+        // give tasks a moment, issue the cancellations, then drop the runtime
+        rt.block_on(async {
+            for r in &running {
+                if let (Some(t), Some(n)) = (&r.token, r.spec.cancel_after) {
+                    for _ in 0..n {
+                        tokio::task::yield_now().await;
+                    }
+                    t.cancel();
+                    obs.label("cancelled-mid-flight");
+                }
+            }
+        });
+        drop(rt);
+        // after shutdown every task's future has been dropped
+        let rt2 = tokio::runtime::Builder::new_current_thread().enable_all().build().unwrap();
+        rt2.block_on(async {
+            for (i, r) in running.iter().enumerate() {
+                join_and_check(r, i, &fail).await;
+            }
+        });
+    } else {
+        rt.block_on(async {
+            let mut waiters = Vec::new();
+            for (i, r) in running.iter().enumerate() {
+                // extra concurrent joiners on worker threads
+                for _ in 0..r.spec.joiners.min(3) {
+                    let h = r.handle.clone();
+                    let ended = r.ended.clone();
+                    let fail = fail.clone();
+                    let spec = r.spec.clone();
+                    waiters.push(tokio::spawn(async move {
+                        if tokio::time::timeout(GRACE, h.join()).await.is_ok() && !ended.load(Ordering::SeqCst) {
+                            let mut g = fail.lock().unwrap();
+                            if g.is_none() {
+                                *g = Some(Failure::new("C42:join-resolved-before-task-ended", format!("task {i} ({spec:?}): a concurrent joiner returned while the task's future was still alive")));
+                            }
+                        }
+                    }));
+                }
+            }
+            for r in &running {
+                if let (Some(t), Some(n)) = (&r.token, r.spec.cancel_after) {
+                    for _ in 0..n {
+                        tokio::task::yield_now().await;
+                    }
+                    t.cancel();
+                }
+            }
+            for (i, r) in running.iter().enumerate() {
+                if will_end_alone(&r.spec) {
+                    join_and_check(r, i, &fail).await;
+                }
+            }
+            for w in waiters {
+                // joiners of endless tasks are released by the shutdown below
+                if w.is_finished() {
+                    let _ = w.await;
+                } else {
+                    w.abort();
+                }
+            }
+        });
+        // endless, never-cancelled tasks: end them by shutting the runtime down, then join
+        drop(rt);
+        let rt2 = tokio::runtime::Builder::new_current_thread().enable_all().build().unwrap();
+        rt2.block_on(async {
+            for (i, r) in running.iter().enumerate() {
+                if !will_end_alone(&r.spec) {
+                    join_and_check(r, i, &fail).await;
+                }
+            }
+        });
+    }
+    for r in &running {
+        let nontrivial = r.spec.panic_at.is_some() || r.spec.cancellable || case.shutdown_early;
+        obs.eval(nontrivial.then(|| digest_of(&(&r.spec, case.shutdown_early))));
+        if r.spec.cancellable && r.spec.pre_cancelled && r.progress.load(Ordering::SeqCst) > 0 {
+            obs.note("observation: a task spawned with an already cancelled token polled its body at least once");
+        }
+    }
+    let f = fail.lock().unwrap().take();
+    match f {
+        None => Ok(()),
+        Some(f) if f.sig.starts_with("inconclusive") => {
+            obs.label("inconclusive-slow-task");
+            obs.note(f.msg);
+            Ok(())
+        }
+        Some(f) => obs.fail(&f.sig.clone(), f.msg),
+    }
+}
+
+pub fn run(ctx: &mut Ctx) {
+    ctx.assume("a task 'ended' is observed through the Drop of a sentinel owned by the task's future (finish, panic and cancellation all drop the future)");
+    ctx.assume("liveness is only judged when the harness knows the task ended and join() stays pending for 2 x 30 s of real time");
+    ctx.assume("thread interleavings are those the tokio scheduler produces; not exhaustive");
+    ctx.essential(&["plain-task", "cancellable-task", "panicking-task", "runtime-shutdown-with-live-tasks", "pre-cancelled"]);
+    ctx.set_shrink_iters(200);
+    let cases = ctx.tier.pick(1500, 60000);
+    ctx.proptest(
+        "task-sets",
+        "1..24 tasks (spawn / spawn_cancellable) with generated lifetimes (0..300 yields, optional 1 ms sleeps, endless loops), generated panic step, cancellation after a generated number of harness yields or before spawn, 0..3 concurrent joiners, optional runtime shutdown with tasks alive; one evaluation per task. Non-trivial = task that panics, is cancellable, or is killed by runtime shutdown (distinct by task spec)",
+        cases,
+        || {
+            let task = (
+                any::<bool>(),
+                prop_oneof![3 => 0u16..8, 2 => 0u16..300],
+                0u8..5,
+                prop::option::weighted(0.25, 0u16..20),
+                prop::option::weighted(0.6, 0u8..40),
+                prop::bool::weighted(0.1),
+                0u8..4,
+                prop::bool::weighted(0.15),
+            )
+                .prop_map(|(cancellable, steps, sleep_every, panic_at, cancel_after, pre_cancelled, joiners, endless)| TaskSpec {
+                    cancellable,
+                    steps,
+                    sleep_every,
+                    panic_at,
+                    cancel_after: if cancellable { cancel_after } else { None },
+                    pre_cancelled: cancellable && pre_cancelled,
+                    joiners,
+                    endless,
+                });
+            (prop::collection::vec(task, 1..24), prop::bool::weighted(0.25), 1u8..=4).prop_map(|(tasks, shutdown_early, workers)| Case { tasks, shutdown_early, workers })
+        },
+        run_case,
+    );
 }
